@@ -37,8 +37,23 @@ func pad(alg string) string {
 	return "none"
 }
 
+// nc16: does the template carry an IPv4 name-constraint range written as 16-byte address + 4-byte mask?
+func nc16(t iss.CertTemplate) bool {
+	for _, n := range append(append([]iss.Net{}, t.PIP...), t.XIP...) {
+		if len(n.IP) == 16 && len(n.Mask) == 4 {
+			return true
+		}
+	}
+	return false
+}
+
 func sigOf(dir, observer string, t iss.CertTemplate, bad []string) map[string]any {
-	return map[string]any{"obj": "cert", "dir": dir, "observer": observer, "fields": strings.Join(bad, ","),
+	if len(bad) == 1 && bad[0] == "outcome" {
+		// the call failed / the result does not parse: key and algorithm choices are not part of the pattern
+		return map[string]any{"obj": "cert", "dir": dir, "observer": observer, "fields": "outcome", "nc16": nc16(t),
+			"pad": "", "signer": "", "parent": ""}
+	}
+	return map[string]any{"obj": "cert", "dir": dir, "observer": observer, "fields": strings.Join(bad, ","), "nc16": nc16(t),
 		"pad": pad(t.SigAlg), "signer": iss.Family(t.SignerKey), "parent": t.Parent.Kind}
 }
 
@@ -98,7 +113,7 @@ func main() {
 			}
 			if is.StdObs != nil {
 				stdParsed++
-			} else if is.DER != nil {
+			} else if is.StdErr != nil {
 				stdFail++
 				stdErrs[is.StdErr.Error()]++
 			}
@@ -108,6 +123,10 @@ func main() {
 			emit := func(observer string, b []string, o *iss.Obs) {
 				bad++
 				sig := sigOf("gen", observer, c.T, b)
+				sig["stage"] = ""
+				if i := strings.Index(o.Err, ":"); i > 0 && o.Outcome == "error" {
+					sig["stage"] = o.Err[:i]
+				}
 				k := mustJSON(sig)
 				if seen[k] {
 					return
